@@ -1,12 +1,18 @@
 theories/Spec/BV.vo theories/Spec/BV.glob theories/Spec/BV.v.beautified theories/Spec/BV.required_vo: theories/Spec/BV.v 
 theories/Spec/BV.vio: theories/Spec/BV.v 
 theories/Spec/BV.vos theories/Spec/BV.vok theories/Spec/BV.required_vos: theories/Spec/BV.v 
+theories/Spec/CoiSpec.vo theories/Spec/CoiSpec.glob theories/Spec/CoiSpec.v.beautified theories/Spec/CoiSpec.required_vo: theories/Spec/CoiSpec.v theories/Spec/System.vo
+theories/Spec/CoiSpec.vio: theories/Spec/CoiSpec.v theories/Spec/System.vio
+theories/Spec/CoiSpec.vos theories/Spec/CoiSpec.vok theories/Spec/CoiSpec.required_vos: theories/Spec/CoiSpec.v theories/Spec/System.vos
 theories/Spec/Eval.vo theories/Spec/Eval.glob theories/Spec/Eval.v.beautified theories/Spec/Eval.required_vo: theories/Spec/Eval.v theories/Model/Expr.vo
 theories/Spec/Eval.vio: theories/Spec/Eval.v theories/Model/Expr.vio
 theories/Spec/Eval.vos theories/Spec/Eval.vok theories/Spec/Eval.required_vos: theories/Spec/Eval.v theories/Model/Expr.vos
 theories/Spec/System.vo theories/Spec/System.glob theories/Spec/System.v.beautified theories/Spec/System.required_vo: theories/Spec/System.v theories/Spec/Eval.vo
 theories/Spec/System.vio: theories/Spec/System.v theories/Spec/Eval.vio
 theories/Spec/System.vos theories/Spec/System.vok theories/Spec/System.required_vos: theories/Spec/System.v theories/Spec/Eval.vos
+theories/Model/Coi.vo theories/Model/Coi.glob theories/Model/Coi.v.beautified theories/Model/Coi.required_vo: theories/Model/Coi.v theories/Spec/CoiSpec.vo
+theories/Model/Coi.vio: theories/Model/Coi.v theories/Spec/CoiSpec.vio
+theories/Model/Coi.vos theories/Model/Coi.vok theories/Model/Coi.required_vos: theories/Model/Coi.v theories/Spec/CoiSpec.vos
 theories/Model/EvalImpl.vo theories/Model/EvalImpl.glob theories/Model/EvalImpl.v.beautified theories/Model/EvalImpl.required_vo: theories/Model/EvalImpl.v theories/Spec/Eval.vo
 theories/Model/EvalImpl.vio: theories/Model/EvalImpl.v theories/Spec/Eval.vio
 theories/Model/EvalImpl.vos theories/Model/EvalImpl.vok theories/Model/EvalImpl.required_vos: theories/Model/EvalImpl.v theories/Spec/Eval.vos
@@ -16,6 +22,9 @@ theories/Model/Expr.vos theories/Model/Expr.vok theories/Model/Expr.required_vos
 theories/Proofs/BVLemmas.vo theories/Proofs/BVLemmas.glob theories/Proofs/BVLemmas.v.beautified theories/Proofs/BVLemmas.required_vo: theories/Proofs/BVLemmas.v theories/Spec/BV.vo
 theories/Proofs/BVLemmas.vio: theories/Proofs/BVLemmas.v theories/Spec/BV.vio
 theories/Proofs/BVLemmas.vos theories/Proofs/BVLemmas.vok theories/Proofs/BVLemmas.required_vos: theories/Proofs/BVLemmas.v theories/Spec/BV.vos
+theories/Proofs/CoiProofs.vo theories/Proofs/CoiProofs.glob theories/Proofs/CoiProofs.v.beautified theories/Proofs/CoiProofs.required_vo: theories/Proofs/CoiProofs.v theories/Model/Coi.vo
+theories/Proofs/CoiProofs.vio: theories/Proofs/CoiProofs.v theories/Model/Coi.vio
+theories/Proofs/CoiProofs.vos theories/Proofs/CoiProofs.vok theories/Proofs/CoiProofs.required_vos: theories/Proofs/CoiProofs.v theories/Model/Coi.vos
 theories/Proofs/EvalImplProofs.vo theories/Proofs/EvalImplProofs.glob theories/Proofs/EvalImplProofs.v.beautified theories/Proofs/EvalImplProofs.required_vo: theories/Proofs/EvalImplProofs.v theories/Model/EvalImpl.vo theories/Proofs/ExprLemmas.vo
 theories/Proofs/EvalImplProofs.vio: theories/Proofs/EvalImplProofs.v theories/Model/EvalImpl.vio theories/Proofs/ExprLemmas.vio
 theories/Proofs/EvalImplProofs.vos theories/Proofs/EvalImplProofs.vok theories/Proofs/EvalImplProofs.required_vos: theories/Proofs/EvalImplProofs.v theories/Model/EvalImpl.vos theories/Proofs/ExprLemmas.vos
@@ -28,3 +37,6 @@ theories/Proofs/ExprLemmas.vos theories/Proofs/ExprLemmas.vok theories/Proofs/Ex
 theories/Props/C06.vo theories/Props/C06.glob theories/Props/C06.v.beautified theories/Props/C06.required_vo: theories/Props/C06.v theories/Model/EvalImpl.vo theories/Proofs/EvalProofs.vo theories/Proofs/EvalImplProofs.vo
 theories/Props/C06.vio: theories/Props/C06.v theories/Model/EvalImpl.vio theories/Proofs/EvalProofs.vio theories/Proofs/EvalImplProofs.vio
 theories/Props/C06.vos theories/Props/C06.vok theories/Props/C06.required_vos: theories/Props/C06.v theories/Model/EvalImpl.vos theories/Proofs/EvalProofs.vos theories/Proofs/EvalImplProofs.vos
+theories/Props/C17.vo theories/Props/C17.glob theories/Props/C17.v.beautified theories/Props/C17.required_vo: theories/Props/C17.v theories/Model/Coi.vo theories/Proofs/CoiProofs.vo
+theories/Props/C17.vio: theories/Props/C17.v theories/Model/Coi.vio theories/Proofs/CoiProofs.vio
+theories/Props/C17.vos theories/Props/C17.vok theories/Props/C17.required_vos: theories/Props/C17.v theories/Model/Coi.vos theories/Proofs/CoiProofs.vos
